@@ -105,10 +105,33 @@ class Describer:
             return next(iter(descs))
         return ("oneof", frozenset(descs))
 
+    def _through_aggregate(self, root, proj):
+        """a field of a local built once as `L = (move A, move B, ..)` is the storage of A / B"""
+        for _ in range(4):
+            if root[0] != "loc" or not proj or proj[0][0] != "f":
+                break
+            l = root[1]
+            if not (isinstance(l, int) and l > self.fn.argc):
+                break
+            sd = self.fn.single_def(l)
+            if not sd or sd[1] == "term" or sd[2].get("k") != "assign" or sd[2]["rv"]["k"] != "aggregate" or sd[2]["rv"].get("agg") != "tuple":
+                break
+            try:
+                i = int(proj[0][1])
+            except (TypeError, ValueError):
+                break
+            ops = sd[2]["rv"]["ops"]
+            if i >= len(ops) or ops[i].get("k") not in ("move", "copy") or ops[i]["place"]["proj"]:
+                break
+            root = ("loc", ops[i]["place"]["local"])
+            proj = proj[1:]
+        return root, proj
+
     def chain_of(self, paths):
         """('self', chain) | ('param', name, chain) | ('local', name, chain) for a set of paths"""
         out = set()
         for (root, proj) in paths:
+            root, proj = self._through_aggregate(root, proj)
             ch = ".".join(fields_only(proj))
             if root[0] == "ext":
                 nm = "p%d" % root[1]
